@@ -96,12 +96,20 @@ impl MarkerClosed {
     }
 }
 
+/// How often the parser may look at a token without consuming one before it is considered stuck.
+/// Every level of a right-nested construct (a chain of prefix operators, nested closures, an
+/// else-if chain) looks at the token that follows it once or twice while the recursion unwinds, so
+/// the budget bounds the nesting depth that can be parsed: 256 made 128 nested prefix operators
+/// look like a stuck parser (spurious errors, and a failed `assert!(p.at(..))` when the fuel ran
+/// out between a check and the assertion that repeats it).
+const PARSER_FUEL: u32 = 1 << 20;
+
 impl<'t> Parser<'t> {
     pub fn new(filename: &Path, tokens: Vec<Token<'t>>) -> Self {
         Self {
             filename: filename.into(),
             input: Input::new(tokens),
-            fuel: Cell::new(256),
+            fuel: Cell::new(PARSER_FUEL),
             events: Vec::new(),
             diagnostics: Diagnostics::new(),
             stuck_reported: Cell::new(false),
@@ -197,7 +205,7 @@ impl Parser<'_> {
     }
 
     pub fn advance(&mut self) {
-        self.fuel.set(256);
+        self.fuel.set(PARSER_FUEL);
         self.input.skip();
         self.stuck_reported.set(false);
         self.events.push(Event::Advance);
